@@ -37,6 +37,10 @@ EVENTS = [
     ('AUTH-plain-ok', ('AUTH PLAIN %s\r\n' % _plain).encode()), ('AUTH-bad-base64', b'AUTH PLAIN !!!\r\n'),
     ('AUTH-noarg', b'AUTH\r\n'), ('FOO', b'FOO bar\r\n'), ('empty-line', b'\r\n'),
     ('EHLO-nonutf8', b'EHLO \xff\r\n'),
+    ('XCUST', b'XCUST now\r\n'),
+    # a command pipelined in the same segment as the end-of-data line (accepted and over-size message)
+    ('DATA-x+NOOP', b'DATA\r\nSubject: t\r\n\r\nx\r\n.\r\nNOOP\r\n'),
+    ('DATA-oversize+NOOP', b'DATA\r\n' + b'A' * 40 + b'\r\n.\r\nNOOP\r\n'),            # a command the application implements (it rewrites the reply it is handed)
 ]
 EV = dict(EVENTS)
 VERDICT_CBS = ('EHLO', 'HELO', 'MAIL', 'RCPT', 'DATA', 'HAVE_DATA', 'AUTH')
@@ -126,6 +130,10 @@ def judge_history(cfg, banner_v, hist):
         if real_closed and not ref.closed:
             viols.append((sig('silent-close', last=','.join(codes or ())),
                           'session ended (%s) after replies %r without a 221/421' % (r.end, codes)))
+    for cname, before, after in getattr(r, 'changed_constants', ()):
+        viols.append((sig('shared-reply-constant-modified', constant=cname),
+                      'after event %s the pre-defined reply slimta.smtp.reply.%s (%s) reads %r: every later session of the process '
+                      'answers with the modified reply' % (evname, cname, before, after)))
     closed = real_closed
     key = (r.real_state(closed), ref.key())
     obs = (codes, tuple(c[:4] for c in cbs))
